@@ -34,7 +34,7 @@ Max(a, b) == IF a > b THEN a ELSE b
 
 NoCall == [op |-> "none", k |-> 0, v |-> 0, cost |-> 0, ttl |-> 0, t |-> 0, ac |-> FALSE]
 NoLin  == [kind |-> "none", found |-> 0, v |-> 0, e |-> 0, cost |-> 0, ttl |-> 0, t |-> 0]
-NoEn   == [k |-> 0, v |-> 0, cost |-> 0, dl |-> 0, left |-> "none", notified |-> 0, ub |-> 0, gone |-> FALSE, dead |-> FALSE, st |-> 0]
+NoEn   == [k |-> 0, v |-> 0, cost |-> 0, dl |-> 0, left |-> "none", notified |-> 0, ub |-> 0, gone |-> FALSE, dead |-> FALSE, st |-> 0, sf |-> 0]
 
 Init0 == [tid |-> "none", line |-> 0, maxsize |-> 0, pool |-> 0, door |-> 0, loading |-> 0, mode |-> "none",
           mp |-> [k \in KeyDom |-> 0], en |-> <<>>, pc |-> <<>>, lin |-> <<>>, pn |-> <<>>,
@@ -42,7 +42,7 @@ Init0 == [tid |-> "none", line |-> 0, maxsize |-> 0, pool |-> 0, door |-> 0, loa
           sent |-> <<>>, appl |-> <<>>, psent |-> <<>>, owes |-> <<>>, need |-> <<>>,
           gets |-> 0, hits |-> 0, lp |-> [k \in KeyDom |-> "none"], lrun |-> [k \in KeyDom |-> 0], lfail |-> <<>>, lcur |-> [k \in KeyDom |-> {}], lmine |-> <<>>, rv |-> <<>>, rdirty |-> <<>>, pl |-> <<>>,
           lastTick |-> -1, stalled |-> FALSE, heldAcc |-> 0, thresh |-> 28610, tick |-> 1024, nsnap |-> 0, nnotif |-> 0, nevents |-> 0, viol |-> {}, traces |-> 0, hangs |-> 0,
-          stuck |-> 0, skipped |-> 0, una |-> {}, qcap |-> 1024, batch |-> 128, sight |-> <<>>, tickSeq |-> 0, lc |-> <<>>, lrunv |-> [k \in KeyDom |-> {}], pend |-> {}]
+          stuck |-> 0, skipped |-> 0, una |-> {}, qcap |-> 1024, batch |-> 128, sight |-> <<>>, tickSeq |-> 0, fired |-> -1, nfired |-> 0, lc |-> <<>>, lrunv |-> [k \in KeyDom |-> {}], pend |-> {}]
 
 V(s, prop, kind) ==
   IF Cardinality({x \in s.viol : x[1] = prop /\ x[4] = kind}) >= 25 THEN s      \* (per property and kind: a flood of one kind must not hide another)
@@ -84,6 +84,9 @@ DoCall(s, e) ==
   IN CASE e.op = "wait" -> [s1 EXCEPT !.need = Put(s.need, e.p, s.sent)]
        [] e.op = "range" -> [s1 EXCEPT !.rv = Put(s.rv, e.p, <<>>), !.rdirty = Put(s1.rdirty, e.p, busy)]
        [] e.op = "len" -> [s1 EXCEPT !.rdirty = Put(s1.rdirty, e.p, busy)]
+       \* Stats is compared with the calls made only if nobody else was inside a call when it began and nobody
+       \* began one before it returned (a whole Get may fit between the counter read and the logged return)
+       [] e.op = "stats" -> [s1 EXCEPT !.rdirty = Put(s1.rdirty, e.p, busy)]
        \* a caller may join a load that is already in flight (until its leader returns)
        [] e.op = "lget" -> [s1 EXCEPT !.pl = Put(s.pl, e.p, s.lcur[e.k]), !.lfail = Put(s.lfail, e.p, FALSE),
                                        !.lc = Put(s.lc, e.p, s.lrunv[e.k] \cup (IF s.mp[e.k] # 0 /\ ~(En(s, s.mp[e.k]).dl # 0 /\ En(s, s.mp[e.k]).dl <= e.t)
@@ -265,7 +268,7 @@ DoRet(s, e) ==
             \* C16: once all calls have returned, Hits + Misses = Get calls made and Hits = those that returned a value -
             \* also on a cache that has been closed since
             LET quiet == \A q \in DOMAIN s.pc : q = e.p \/ s.pc[q].op = "none" IN
-            Vif(s0, quiet /\ s.mode # "replay" /\ (e.n # s.hits \/ e.n + e.n2 # s.gets), "C16", "stats_differ_from_get_calls_made")
+            Vif(s0, quiet /\ ~Get(s.rdirty, e.p, TRUE) /\ s.mode # "replay" /\ (e.n # s.hits \/ e.n + e.n2 # s.gets), "C16", "stats_differ_from_get_calls_made")
        [] e.op = "close" -> [s0 EXCEPT !.closedDone = TRUE]
        [] OTHER -> s0
 
@@ -278,7 +281,7 @@ DoSinkOut(s, e) ==
       o == En(s1, e.e)
       \* st: the tick count when the entry's (re)scheduling event was applied - the wheel can only collect it on a later tick
       s2 == [s1 EXCEPT !.appl = BagAdd(s1.appl, <<e.e, e.code, e.delta>>), !.una = IF e.code = "NEW" THEN @ \ {e.e} ELSE @,
-                       !.en = IF e.code \in {"NEW", "UPDATE"} THEN Put(s1.en, e.e, [o EXCEPT !.st = s1.tickSeq]) ELSE @]
+                       !.en = IF e.code \in {"NEW", "UPDATE"} THEN Put(s1.en, e.e, [o EXCEPT !.st = s1.tickSeq, !.sf = s1.nfired]) ELSE @]
   IN IF e.code = "REMOVE" /\ e.dd = 1
      THEN [s2 EXCEPT !.en = Put(s2.en, e.e, [o EXCEPT !.gone = TRUE]),
                      !.press = IF o.gone THEN s2.press ELSE s2.press - o.ub]
@@ -382,15 +385,20 @@ DoSnap(s, e) ==
       o == Vif(n, q /\ nopool /\ s.lastTick = e.t /\ \E i \in DOMAIN res : res[i][4] # 0 /\ (res[i][4] \div s.tick) < (e.t \div s.tick)
                                                             /\ En(s, res[i][2]).st < s.tickSeq,
                "C04", "resident_entry_overdue_after_tick")
+      \* the same, counted in firings of the ticker instead of ticks the code chose to run: the harness let the
+      \* ticker fire at time T while the policy lock was busy for a moment, freed the lock and waited (tickfired)
+      o2 == Vif(o, q /\ nopool /\ s.fired = e.t /\ \E i \in DOMAIN res : res[i][4] # 0 /\ (res[i][4] \div s.tick) < (e.t \div s.tick)
+                                                            /\ En(s, res[i][2]).sf < s.nfired,
+               "C04", "resident_entry_overdue_although_the_ticker_fired_after_its_deadline")
   IN IF q
-     THEN [o EXCEPT !.nsnap = s.nsnap + 1,
+     THEN [o2 EXCEPT !.nsnap = s.nsnap + 1,
                     \* entries settled (notified once, not resident) need not be looked at again; cost bounds restart
                     !.en = [x \in DOMAIN s.en |->
                               IF x \in mapIds THEN [s.en[x] EXCEPT !.ub = s.en[x].cost]
                               ELSE [s.en[x] EXCEPT !.dead = TRUE]],
                     !.press = costSum,
                     !.sent = <<>>, !.appl = <<>>, !.psent = <<>>, !.owes = <<>>, !.una = {}]
-     ELSE o
+     ELSE o2
 
 DoTickLocked(s, e) == [Owed(s, e.p) EXCEPT !.lastTick = e.t, !.stalled = TRUE, !.heldAcc = 0, !.tickSeq = @ + 1]
 
@@ -453,6 +461,7 @@ Upd(s0, e) ==
                               e.qgrow > 0, "C10", "write_after_close_still_queues_policy_events")
     [] e.ev = "closecancel" -> [s EXCEPT !.closed = TRUE]
     [] e.ev = "stall" -> [s EXCEPT !.stalled = (e.on = 1)]
+    [] e.ev = "tickfired" -> [s EXCEPT !.fired = e.t, !.nfired = @ + 1]
     [] e.ev = "mlocked" -> [s EXCEPT !.stalled = TRUE]
     \* the tickdone / munlock hooks sit just before the unlock; under the gate scheduler the goroutine may be
     \* parked there still holding the lock, and the scheduler logs "unlocked" once it has let it go
